@@ -129,6 +129,10 @@ def decode_pdb(text: str) -> Dict[str, list]:
                 })
                 if line[11] != " " or line[20] != " " or line[27:30] != "   " or line[66:76].strip():
                     problems.append(f"line {ln + 1}: non-blank filler column: {line!r}")
+                a = atoms[-1]
+                if line[6:11] != str(a["serial"]).rjust(5) or line[22:26] != str(a["resseq"]).rjust(4) or \
+                        line[76:78] != a["element"].rjust(2) or line[17:20] != a["resname"].rjust(3):
+                    problems.append(f"line {ln + 1}: serial / residue name / residue number / element not right-justified in its columns: {line!r}")
             except (ValueError, IndexError) as e:
                 problems.append(f"line {ln + 1}: field does not sit in its columns ({e}): {line!r}")
         elif kind == "TER":
